@@ -154,6 +154,9 @@ var c12Wrappers = []struct {
 	{"strcat", func(x string) string { return "strcat('p', " + x + ")" }},
 	{"iff-cond", func(x string) string { return "iff(" + x + ", 1, 2)" }},
 	{"iff-then", func(x string) string { return "iff(a, " + x + ", 2)" }},
+	{"iff-else", func(x string) string { return "iff(a, 1, " + x + ")" }},
+	{"iif-else-paren", func(x string) string { return "iif(a > 1, 'L', (" + x + "))" }},
+	{"strcat-first", func(x string) string { return "strcat(" + x + ", 'q', b)" }},
 	{"index-base", func(x string) string { return "(" + x + ")[1]" }},
 	{"index-key", func(x string) string { return "m[" + x + "]" }},
 	{"call-index", func(x string) string { return "f(" + x + ")['k']" }},
@@ -171,7 +174,7 @@ var c12Wrappers = []struct {
 }
 
 // c12Bases: the innermost operand; the erroneous ones start error cascades at the bottom of the nest.
-var c12Bases = []string{"a", "b +", "", "1 1", "'x", "!", ")", "f(", "a[", "in"}
+var c12Bases = []string{"a", "b +", "", "1 1", "'x", "!", ")", "f(", "a[", "in", "iff()", "iff(a)", "not()", "not(a, b)", "strcat()", "$left.a", "count(1)"}
 
 func nestWrappers(i, j, depth int, base string) string {
 	x := base
@@ -320,6 +323,29 @@ func c12Main(r *run.Runner) {
 			for _, c := range oddCtx {
 				totalOne(w, strings.Replace(c, "%s", shape, 1))
 			}
+		}
+	})
+	// unnamed columns are named after their source text: expressions that contain comment-like or quote-like text inside
+	// string literals and quoted names, laid out over one or several lines (LF / CRLF / indentation / real comments)
+	unnamed := [][]string{
+		{"strcat", "(", "scheme", ",", `"://"`, ",", "host", ")"}, {"strcat", "(", "a", ",", `'--'`, ",", `"/*"`, ",", "b", ")"}, {"a", "==", `'x // y'`}, {"`col // x`", "+", "1"},
+		{"tolower", "(", `"// only"`, ")"}, {"f", "(", `'a\'b'`, ",", `"c\"d"`, ")"}, {"m", "[", `'k//'`, "]"}, {"a", "in", "(", `'//'`, ",", `"*/"`, ")"}, {"`q``r`", "==", "'`'"},
+		{"strcat", "(", `'\\'`, ",", `"//"`, ")"}, {"a", "+", "b"}, {"count", "(", ")"}, {"iff", "(", "a", ",", `"y // n"`, ",", `'/'`, ")"},
+	}
+	unnamedCtx := []string{"T | extend %s", "T | extend b, %s | count", "T | summarize %s by k", "T | summarize count() by %s", "T | summarize max(a) by k, %s | project k", "T | join (R | summarize count() by %s) on k", "T | extend %s, %s | sort by k"}
+	seps12 := []string{" ", "\n", "\r\n", "\n  ", " // c\n", "\t", " //\n"}
+	r.Sweep("implicit-name-layouts", int64(len(unnamed)*len(unnamedCtx)), func(w *run.Worker, item int64) {
+		lex := unnamed[item/int64(len(unnamedCtx))]
+		ctx := unnamedCtx[item%int64(len(unnamedCtx))]
+		var texts []string
+		for _, sp := range seps12 {
+			texts = append(texts, strings.Join(lex, sp))
+			for gap := 1; gap < len(lex); gap++ {
+				texts = append(texts, strings.Join(lex[:gap], "")+sp+strings.Join(lex[gap:], ""), strings.Join(lex[:gap], " ")+sp+strings.Join(lex[gap:], " "))
+			}
+		}
+		for _, t := range texts {
+			totalOne(w, strings.ReplaceAll(ctx, "%s", t))
 		}
 	})
 	r.Sweep("bytes36", e.Items(), func(w *run.Worker, item int64) {
